@@ -1022,7 +1022,6 @@ func flush(flat []flatTok, indent int) string {
 	min := -1
 	why := ""
 	atLineStart := true
-	seqStart := false
 	for _, t := range flat {
 		if t.lit == nil {
 			if atLineStart {
@@ -1030,8 +1029,11 @@ func flush(flat []flatTok, indent int) string {
 					// the rendered line starts with the indentation literal only
 					min = 0
 				} else {
-					// a line that starts with a sequence has no line-leading literal
-					seqStart = true
+					// "any literal string at the start of each line is
+					// analyzed": the literal string at the start of a line
+					// that starts with a sequence is the empty string, which
+					// has no leading spaces
+					min = 0
 				}
 			}
 			atLineStart = false
@@ -1072,9 +1074,6 @@ func flush(flat []flatTok, indent int) string {
 				break
 			}
 		}
-	}
-	if seqStart && min > 0 {
-		why = "flush heredoc line starting with a template sequence"
 	}
 	if min <= 0 {
 		return why
